@@ -247,6 +247,23 @@ def shard_main(ctx):
             judge(ctx, astx.parse_expr(t), data, False, {"directed": t})
         for t in DIRECTED_OOB:
             judge(ctx, astx.parse_expr(t), data, True, {"directed": t})
+        # user functions named like a call_ attribute of the transformer classes that is no documented operator (none on a right tree)
+        from ..history import HANDLER_NAME_TEMPLATES, handler_named_functions
+
+        for x in handler_named_functions():
+            for t in HANDLER_NAME_TEMPLATES:
+                ctx.count("queries-calling-a-function-named-like-an-undocumented-handler")
+                q = astx.parse_expr(t.format(X=x))
+                judge(ctx, q, data, False, {"directed": t.format(X=x)})
+                # ... and such a call is left a call of that function
+                from func_adl.ast.function_simplifier import simplify_chained_calls
+
+                try:
+                    out = simplify_chained_calls().visit(astx.clone(q))
+                    if not any(isinstance(n, ast.Call) and isinstance(n.func, ast.Name) and n.func.id == x for n in ast.walk(out)):
+                        ctx.violation("user-function-taken-for-a-handler", f"{t.format(X=x)}: the call of the user's function {x} is gone: {ast.dump(out)[:200]}", {"query": t.format(X=x), "oob": False, "info": {"directed": t.format(X=x)}})
+                except Exception:
+                    pass
         # programmatic negative Constant
         q = astx.parse_expr("Select(EventDataset(), lambda e: (e.x, e.y)[0])")
         q.args[1].body.slice = astx.C(-1)
